@@ -234,7 +234,7 @@ impl<T: UciTx, H: Heuristic, M: MoveOrder> Search<T, H, M> {
             self.try_set_pv_from_continuation().ok();
         }
 
-        let max_depth = self.params.go.depth.map_or(999_999, |d| d as usize);
+        let max_depth = self.params.go.depth.map_or(999_999, |d| max(d, 1) as usize);
 
         if self.params.go.move_time.is_none() {
             self.params.go.move_time = self.calculate_max_thinking_time().map(|d| d.mul(2));
